@@ -309,6 +309,21 @@ func checkPrevails(c *buildCase, full *dhcpv4.DHCPv4) []clauseFail {
 		ok = optIs(full, uint8(atoi(a[1])), unhx(a[2]))
 	case "hwtype":
 		ok = int(full.HWType) == atoi(a[1])
+	case "ro":
+		// WithRequestedOptions(codes...): every one of them is requested afterwards,
+		// whatever the list held before (seeded change C15-17: a presence set in which
+		// two codes 32 apart shared a bit)
+		for _, code := range parseCodes(a[1]) {
+			if !full.IsOptionRequested(code) || !bytes.Contains(full.Options[55], []byte{code.Code()}) {
+				ok = false
+			}
+		}
+	case "netboot":
+		for _, code := range []uint8{66, 67} {
+			if !bytes.Contains(full.Options[55], []byte{code}) {
+				ok = false
+			}
+		}
 	default:
 		return nil
 	}
